@@ -24,6 +24,20 @@ import rpylib.process.coupling.helper as CH
 
 shims.install_np(CMC, CLC, CH)
 
+
+class _NpObjectArrays(shims.NpProxy):
+    """np for couplinglevycopula: under exploration np.array of plain floats is an object array, so that `current_value += <symbolic>`
+    (in-place accumulation into an array created from grid.origin) works as it does on floats"""
+
+    def array(self, obj, dtype=None, **kw):
+        a = super().array(obj, dtype=dtype, **kw)
+        if V.get_context() is not None and not getattr(V.get_context(), "concrete", False) and isinstance(a, np.ndarray) and a.dtype == float and dtype is None:
+            return a.astype(object)
+        return a
+
+
+CLC.__dict__["np"] = _NpObjectArrays()
+
 PID = "C03"
 
 
@@ -492,6 +506,64 @@ def h_copula(ctx, parity, which=None):
                          regions={"increment_with_even_and_odd_coordinates": mixed}, timeout_ms=5000 if mixed else None)
 
 
+def replay_copula_slices(sc):
+    """real copula coupling (HEM x HEM, Clayton), jump-time mode: every coarse value is the running sum of the coupled increments, each of
+    which is the simultaneous fine jump copied (even) or moved to an adjacent coarse state (odd)"""
+    import rpylib.model.levymodel.mixed.hem as HEM
+    from rpylib.distribution.levycopula import ClaytonCopula
+
+    ms = [HEM.HEMModel(HEM.HEMParameters(sigma=0.1, p=0.4, eta1=20.0, eta2=25.0, intensity=6.0)),
+          HEM.HEMModel(HEM.HEMParameters(sigma=0.1, p=0.6, eta1=15.0, eta2=30.0, intensity=5.0))]
+    lcm = LCM.LevyCopulaModel(models=ms, copula=ClaytonCopula(theta=2.0, eta=0.5))
+    h = 0.1
+    axis = np.array([-2 * h, -h, 0.0, h, 2 * h])
+    grid = GS.CTMCGrid(h=h, origin_coordinate=2, axes=[axis.copy(), axis.copy()])
+    cp = CLC.CouplingProcessLevyCopula(lcm, grid, SamplingMethod.INVERSION)
+    coarse = set(np.round(axis, 12))
+    cp.next_level(mc_paths=0, path_managers=None, product=StubProduct(times=TIMES))
+    sim = cp._path_coupling_simulation
+    fine_axis = grid.axes[0]
+    piv = grid.origin_coordinate
+    incs = [(2, -2), (-2, 4), (4, 2)]
+    vals = sim._coupling_states_for_a_slice(list(incs))
+    bad = []
+    run = np.zeros(2)
+    for k, inc in enumerate(incs):
+        run = run + np.array([fine_axis[piv[0] + inc[0]], fine_axis[piv[1] + inc[1]]])
+        if not np.allclose(np.asarray(vals[k], dtype=float), run, atol=1e-12):
+            bad.append(f"after jump {k + 1} the coarse value is {np.asarray(vals[k]).tolist()}, the running sum of the (copied) increments is {run.tolist()}")
+    return bool(bad), f"copula coupling, slice of even fine increments {incs} on the refined axis {np.round(fine_axis, 3).tolist()}: " + "; ".join(bad)
+
+
+def h_copula_slices(ctx):
+    """several fine jumps inside one interval (copula coupling): the coarse values handed back are the running sums, one per jump"""
+    d, npts = 2, 1
+    axis, h, pivot = sym_axis(ctx, npts, npts, name="x0")
+    grid = make_grid(h, pivot, [axis, axis])
+    models = [A.abs_levy_model(ctx, f"nu{i}", sigma=0.0, a=0.0, finite_activity=False, finite_variation=True) for i in range(d)]
+    cop = A.AbsCopula(ctx, "F", d)
+    lcm = LCM.LevyCopulaModel(models=models, copula=cop)
+    try:
+        cp = CLC.CouplingProcessLevyCopula(lcm, grid, SamplingMethod.INVERSION)
+        cp.next_level(mc_paths=0, path_managers=None, product=StubProduct(times=TIMES))
+    except ZeroDivisionError:
+        raise PathAbort()
+    sim = cp._path_coupling_simulation
+    piv = grid.origin_coordinate
+    fa = grid.axes
+    incs = [(2, -2), (-2, 0), (0, 2)]
+    rp = (replay_copula_slices, lambda m: {})
+    vals = sim._coupling_states_for_a_slice(list(incs))
+    ctx.prove("C03.copula.slice_has_one_coarse_value_per_fine_jump", len(vals) == len(incs), replay=rp)
+    run = [0.0, 0.0]
+    conds = []
+    for k, inc in enumerate(incs):
+        run = [run[i] + fa[i][piv[i] + inc[i]] for i in range(d)]
+        conds += [EQ(vals[k][i], run[i]) for i in range(d)]
+    ctx.prove("C03.copula.slice_coarse_values_are_running_sums_of_the_coupled_increments", AND(*conds), replay=rp)
+    ctx.prove("C03.copula.empty_slice_has_no_values", len(sim._coupling_states_for_a_slice([])) == 0, replay=rp)
+
+
 def h_twin(ctx):
     """sensitivity twin: a right-jump probability computed from the wrong half cell must be caught"""
     axis, h, pivot = sym_axis(ctx, 1, 1)
@@ -530,6 +602,7 @@ def harnesses(tier):
         hs.append(Harness("1d.1.1.L2.fa0.fv0", h_1d, {"nl": 1, "nr": 1, "levels": 2, "fa": False, "fv": False}, max_paths=6000, batch=4))
     for kind in ("list", "array"):
         hs.append(Harness(f"slices.{kind}", h_slices, {"kind": kind}, max_paths=200))
+    hs.append(Harness("copula.slices", h_copula_slices, max_paths=200))
     for par in ("ee", "oo", "oe", "eo"):
         for w in range(len(INCS[par])):
             if q and par in ("oe", "eo") and w > 0:
@@ -539,7 +612,7 @@ def harnesses(tier):
     return hs
 
 
-EXPECT = ["C03.coupled_dates_assembly_accepts_the_samplers_output", "C03.coupled_dates_coarse_value_is_last_cumulated_coupled_value", "C03.coarse_rate_preserved.1d", "C03.even_increment_copied_unchanged", "C03.odd_increment_moves_to_adjacent_coarse_state",
+EXPECT = ["C03.copula.slice_coarse_values_are_running_sums_of_the_coupled_increments", "C03.coupled_dates_assembly_accepts_the_samplers_output", "C03.coupled_dates_coarse_value_is_last_cumulated_coupled_value", "C03.coarse_rate_preserved.1d", "C03.even_increment_copied_unchanged", "C03.odd_increment_moves_to_adjacent_coarse_state",
           "C03.transfer_probability_times_rate_is_half_cell_mass", "C03.coarse_diffusion_is_previous_fine", "C03.coarse_deterministic_path_is_previous_level",
           "C03.same_brownian_increments_drive_both", "C03.copula.transfer_probability_times_rate_is_subcell_mass",
           "C03.copula.even_increment_copied_unchanged", "C03.copula.corner_probabilities_sum_to_one"]
